@@ -420,10 +420,12 @@ func c20(c *Ctx) {
 			}
 			continue
 		}
-		if reported[k] {
+		// a violating access is reported even if another access of the same kind in this function was fine
+		kv := vkey{fi.Name(), fieldName, kind + "!"}
+		if reported[kv] {
 			continue
 		}
-		reported[k] = true
+		reported[kv] = true
 		construct := kind + " of " + fieldName + " without " + lock
 		if a.write && mode == "R" {
 			construct = "write of " + fieldName + " under a read lock (" + lock + ")"
@@ -492,21 +494,55 @@ func c20(c *Ctx) {
 					return true
 				}
 				lobj := astx.Obj(info, lid)
-				replaced := map[string]bool{}
-				ast.Inspect(fi.Body(), func(k ast.Node) bool {
-					a2, ok := k.(*ast.AssignStmt)
-					if !ok {
+				// where the copy leaves the function's hands: used as a whole value (stored, passed, returned)
+				g := c.Graph(fi)
+				var escapes []int
+				for _, v := range g.Nodes() {
+					if v.Node == nil || v.Node == ast.Node(as) {
+						continue
+					}
+					whole := false
+					ast.Inspect(v.Node, func(k ast.Node) bool {
+						switch x := k.(type) {
+						case *ast.SelectorExpr:
+							// copied.F is not a use of the whole value
+							if bid, ok := ast.Unparen(x.X).(*ast.Ident); ok && astx.Obj(info, bid) == lobj {
+								return false
+							}
+						case *ast.Ident:
+							if astx.Obj(info, x) == lobj {
+								whole = true
+							}
+						}
 						return true
+					})
+					if whole {
+						escapes = append(escapes, v.ID)
+					}
+				}
+				replaced := map[string]bool{}
+				for _, v := range g.Nodes() {
+					a2, ok := v.Node.(*ast.AssignStmt)
+					if !ok {
+						continue
 					}
 					for _, l := range a2.Lhs {
 						if se, ok := ast.Unparen(l).(*ast.SelectorExpr); ok {
 							if bid, ok := ast.Unparen(se.X).(*ast.Ident); ok && astx.Obj(info, bid) == lobj {
-								replaced[se.Sel.Name] = true
+								// the replacement counts only if it happens on every path to every escape
+								domAll := len(escapes) > 0
+								for _, ev := range escapes {
+									if !g.DominatedBy(ev, func(x *cfgx.Vertex) bool { return x.ID == v.ID }) {
+										domAll = false
+									}
+								}
+								if domAll {
+									replaced[se.Sel.Name] = true
+								}
 							}
 						}
 					}
-					return true
-				})
+				}
 				all := true
 				for _, fv := range structFields(sessionT) {
 					switch fv.Type().Underlying().(type) {
